@@ -265,7 +265,14 @@ class MQTTClient(MQTTTransport):
         try:
             async for message in self._client.messages:
                 payload = cast(bytes, message.payload)
-                self._receive(message.topic.value, payload.decode())
+                try:
+                    decoded_payload = payload.decode()
+                except UnicodeDecodeError as err:
+                    self._receive_error(
+                        TransportFailedError(f"Failed to decode message: {err}"),
+                    )
+                    continue
+                self._receive(message.topic.value, decoded_payload)
         except MqttError as err:
             self._receive_error(
                 TransportFailedError(f"Failed to receive message: {err}"),
